@@ -2033,6 +2033,158 @@ def generate_glue():
     return "\n".join(lines) + "\n"
 
 
+# ---- BEGIN specification-level forwarding (rtamt/spec/abstract_specification.py -> Rtamt/Py/GeneratedFwd.lean) ----
+SPEC_FILE = "rtamt/spec/abstract_specification.py"
+OUT_FWD = os.path.join(os.path.dirname(HERE), "lean", "Rtamt", "Py", "GeneratedFwd.lean")
+FWD_METHODS = [("AbstractSpecification", "set_sampling_period"), ("AbstractSpecification", "get_sampling_frequency"),
+               ("AbstractSpecification", "sampling_violation_counter"), ("AbstractSpecification", "sampling_tolerance"),
+               ("AbstractOfflineSpecification", "evaluate"), ("AbstractOnlineSpecification", "update"),
+               ("AbstractOnlineSpecification", "final_update"), ("AbstractOnlineSpecification", "reset")]
+
+
+class FwdTr:
+    """Methods of the specification classes that forward to the interpreters -> terms of `Rtamt/Py/Fwd.lean`."""
+
+    def self_attr(self, e):
+        """`self.x` -> "x" """
+        if isinstance(e, ast.Attribute) and isinstance(e.value, ast.Name) and e.value.id == "self":
+            return e.attr
+        return None
+
+    def expr(self, e):
+        t = src(e)
+        if isinstance(e, ast.Name):
+            return "(.loc %s)" % q(e.id)
+        if isinstance(e, ast.Constant):
+            if e.value is None:
+                return ".none_"
+            if e.value is True:
+                return ".true_"
+            if e.value is False:
+                return ".false_"
+            if isinstance(e.value, int) and not isinstance(e.value, bool):
+                return "(.int %d)" % e.value
+        if isinstance(e, ast.List):
+            if not e.elts:
+                return ".emptyList"
+            return "(.listOf [%s])" % ", ".join(self.expr(x) for x in e.elts)
+        if isinstance(e, ast.Call) and isinstance(e.func, ast.Name) and not e.keywords:
+            if e.func.id == "hasattr" and len(e.args) == 2 and src(e.args[0]) == "self" and isinstance(e.args[1], ast.Constant) \
+                    and isinstance(e.args[1].value, str):
+                return "(.hasAttr %s)" % q(e.args[1].value)
+            if e.func.id == "isinstance" and len(e.args) == 2 and self.self_attr(e.args[0]) and isinstance(e.args[1], ast.Name):
+                return "(.isInst %s %s)" % (q(self.self_attr(e.args[0])), q(e.args[1].id))
+            if e.func.id == "len" and len(e.args) == 1:
+                return "(.lenOf %s)" % self.expr(e.args[0])
+        if isinstance(e, ast.Call) and isinstance(e.func, ast.Attribute) and self.self_attr(e.func.value) and not e.keywords \
+                and not any(isinstance(a, ast.Starred) for a in e.args):
+            return "(.callOf %s %s [%s])" % (q(self.self_attr(e.func.value)), q(e.func.attr), ", ".join(self.expr(a) for a in e.args))
+        a = self.self_attr(e)
+        if a is not None:
+            if a == "ast":
+                return ".selfAst"
+            if a.endswith("_flag"):
+                return "(.flag %s)" % q(a)
+        if isinstance(e, ast.Attribute) and self.self_attr(e.value):
+            return "(.attrOf %s %s)" % (q(self.self_attr(e.value)), q(e.attr))
+        if isinstance(e, ast.BoolOp) and isinstance(e.op, ast.Or) and len(e.values) == 2:
+            return "(.orElse %s %s)" % (self.expr(e.values[0]), self.expr(e.values[1]))
+        if isinstance(e, ast.BinOp) and isinstance(e.op, ast.Add):
+            return "(.add %s %s)" % (self.expr(e.left), self.expr(e.right))
+        if isinstance(e, ast.Compare) and len(e.ops) == 1 and isinstance(e.ops[0], (ast.NotEq, ast.Eq)):
+            return "(.%s %s %s)" % ("ne" if isinstance(e.ops[0], ast.NotEq) else "eq", self.expr(e.left), self.expr(e.comparators[0]))
+        if isinstance(e, ast.Subscript) and isinstance(e.slice, ast.Constant) and isinstance(e.slice.value, int) and e.slice.value >= 0:
+            return "(.idx %s %d)" % (self.expr(e.value), e.slice.value)
+        return "(.unsupported %s)" % q(t)
+
+    def block(self, stmts):
+        items = [self.stmt(s) for s in stmts]
+        items = [i for i in items if i != ".skip"]
+        if not items:
+            return ".skip"
+        out = items[-1]
+        for i in reversed(items[:-1]):
+            out = "(.seq %s %s)" % (i, out)
+        return out
+
+    def is_exc_ctor(self, e):
+        return isinstance(e, ast.Call) and isinstance(e.func, ast.Name) and e.func.id in ("RTAMTException", "Exception")
+
+    def stmt(self, s):
+        if isinstance(s, ast.Pass):
+            return ".skip"
+        if isinstance(s, ast.Expr) and isinstance(s.value, ast.Constant):
+            return ".skip"
+        if isinstance(s, ast.Expr) and self.is_exc_ctor(s.value):
+            return ".mkExc"
+        if isinstance(s, ast.Expr) and isinstance(s.value, ast.Call):
+            return "(.expr %s)" % self.expr(s.value)
+        if isinstance(s, ast.Raise) and s.exc is not None and self.is_exc_ctor(s.exc) and s.cause is None:
+            return "(.raise_ %s)" % ("true" if s.exc.func.id == "RTAMTException" else "false")
+        if isinstance(s, ast.Return):
+            if s.value is None:
+                return ".retNone"
+            return "(.ret %s)" % self.expr(s.value)
+        if isinstance(s, ast.Assign) and len(s.targets) == 1:
+            t = s.targets[0]
+            if isinstance(t, ast.Name):
+                return "(.setLoc %s %s)" % (q(t.id), self.expr(s.value))
+            a = self.self_attr(t)
+            if a is not None and a.endswith("_flag"):
+                return "(.setFlag %s %s)" % (q(a), self.expr(s.value))
+        if isinstance(s, ast.If):
+            return "(.ite %s %s %s)" % (self.expr(s.test), self.block(s.body), self.block(s.orelse))
+        if isinstance(s, ast.For) and not s.orelse and isinstance(s.target, ast.Name) and len(s.body) == 1 \
+                and isinstance(s.body[0], ast.Expr) and isinstance(s.body[0].value, ast.Call):
+            c = s.body[0].value
+            if isinstance(c.func, ast.Attribute) and c.func.attr == "append" and isinstance(c.func.value, ast.Name) \
+                    and len(c.args) == 1 and isinstance(c.args[0], ast.Name) and c.args[0].id == s.target.id:
+                return "(.forAppend %s %s %s)" % (q(s.target.id), self.expr(s.iter), q(c.func.value.id))
+        return "(.unsupported %s)" % q(src(s))
+
+
+def generate_fwd():
+    """The forwarding methods of the specification classes."""
+    tree = ast.parse(open(os.path.join(REPO, SPEC_FILE)).read())
+    cls = {n.name: n for n in tree.body if isinstance(n, ast.ClassDef)}
+    tr = FwdTr()
+    lines = ["/- GENERATED by harness/py2lean.py from %s of /repo on every run - do not edit. -/" % SPEC_FILE,
+             "import Rtamt.Py.Fwd", "", "namespace Rtamt.Py.Gen.Fwd", "open Rtamt Rtamt.Py Rtamt.Py.Fwd", ""]
+    for cname, mname in FWD_METHODS:
+        c = cls.get(cname)
+        cands = [n for n in (c.body if c is not None else []) if isinstance(n, ast.FunctionDef) and n.name == mname]
+        # a property: the getter is the definition decorated with `property`
+        getters = [n for n in cands if any(isinstance(d, ast.Name) and d.id == "property" for d in n.decorator_list)]
+        m = getters[0] if getters else (cands[0] if len(cands) == 1 and not cands[0].decorator_list else None)
+        lines.append("/-- `%s.%s` -/" % (cname, mname))
+        if m is None:
+            lines.append("def %s : FMethod :=\n  { params := [], body := (.unsupported \"missing method\") }" % mname)
+        else:
+            params = [a.arg for a in m.args.args[1:]] + ([m.args.vararg.arg] if m.args.vararg else [])
+            lines.append("def %s : FMethod :=\n  { params := [%s], body := %s }" % (mname, ", ".join(q(x) for x in params), tr.block(m.body)))
+        lines.append("")
+    # the attributes `__init__` of the three classes assigns that the translated methods read as flags
+    inits = []
+    for cname in ("AbstractSpecification", "AbstractOfflineSpecification", "AbstractOnlineSpecification"):
+        c = cls.get(cname)
+        for n in (c.body if c is not None else []):
+            if isinstance(n, ast.FunctionDef) and n.name == "__init__":
+                for st in ast.walk(n):
+                    if isinstance(st, ast.Assign) and len(st.targets) == 1 and tr.self_attr(st.targets[0]) \
+                            and tr.self_attr(st.targets[0]).endswith("_flag"):
+                        v = st.value
+                        val = "true" if (isinstance(v, ast.Constant) and v.value is True) else \
+                              "false" if (isinstance(v, ast.Constant) and v.value is False) else None
+                        inits.append("(%s, %s, %s)" % (q(cname), q(tr.self_attr(st.targets[0])),
+                                                      ("some " + val) if val else "none"))
+    lines.append("/-- the `*_flag` attributes the constructors assign: (class, attribute, initial value) -/")
+    lines.append("def initFlags : List (String × String × Option Bool) :=\n  [%s]" % ", ".join(inits))
+    lines.append("")
+    lines.append("end Rtamt.Py.Gen.Fwd")
+    return "\n".join(lines) + "\n"
+# ---- END specification-level forwarding ----
+
+
 NODE_DIRS = ["rtamt/syntax/node/ltl", "rtamt/syntax/node/stl", "rtamt/syntax/node/arithmetic"]
 OUT_NAMES = os.path.join(os.path.dirname(HERE), "lean", "Rtamt", "Py", "GeneratedNames.lean")
 NODE_KINDS = ["Variable", "Constant", "Predicate", "Abs", "Sqrt", "Exp", "Ln", "Negate", "Neg", "Addition", "Subtraction", "Multiplication",
@@ -2120,6 +2272,7 @@ def main():
     write_if_changed(OUT_CLOCK, generate_clock())
     write_if_changed(OUT_EXPL, generate_expl())
     write_if_changed(OUT_GLUE, generate_glue())
+    write_if_changed(OUT_FWD, generate_fwd())
     write_if_changed(OUT_NAMES, generate_names())
     write_if_changed(OUT_HOR, generate_horizon())
     write_if_changed(OUT_PAST, generate_past())
